@@ -18,7 +18,9 @@ CONSTANTS Kinds,        \* <<"asm", "bld", ...>>
           MaxOps,       \* history bound
           MaxNodes,     \* bound on recorded nodes per Builder
           Bug,          \* "none" or the name of a slip
-          FixFinalize,  \* TRUE: the serialising assembler of finalize() is given the Builder's logger / handler in effect
+          FixFinalize,  \* TRUE: the proposed repairs are applied: the serialising assembler of finalize() is given the Builder's
+                        \* logger / handler in effect; emit_op_array() with too many operands resets the state and reports
+          UseEmitN,     \* emit_op_array(op_count > 6) is part of the model
           Helpers,      \* x86 option helpers used by the model: subset of {"lock", "k"}
           EncOpts,      \* encoding options toggled by the model: subset of {"size"}
           DiagOpts,     \* diagnostic options toggled by the model: subset of {"va", "vi"}
@@ -217,6 +219,13 @@ EmitBld(i, cls) ==
 
 Emit(i, cls, grow) == IF IsAsm(i) THEN EmitAsm(i, cls, grow) ELSE (~grow /\ EmitBld(i, cls))
 
+(* emitter.cpp BaseEmitter::_emit_op_array(): `default: return make_error(Error::kInvalidArgument);` *)
+EmitN(i) ==
+  LET m == es[i] IN
+  IF FixFinalize
+    THEN Step(<<"EmitN", i>>, Report(i, ResetState(m), "Err") @@ [e |-> "EmitN", em |-> i] @@ Quiet, h, [es EXCEPT ![i] = ResetState(m)])
+    ELSE Step(<<"EmitN", i>>, [e |-> "EmitN", em |-> i, r |-> "Err"] @@ Quiet, h, es)
+
 (* ---- comment(): assembler.cpp / builder.cpp; commentf(): emitter.cpp ---- *)
 EvMisc(i, k) == [e |-> "Misc", em |-> i, k |-> k, tx |-> TRUE, ind |-> 0] @@ Quiet
 Comment(i, k) ==                 \* k = "C" comment(), "F" commentf()
@@ -284,6 +293,7 @@ Next ==
   \/ \E i \in E : UseCm /\ SetCm(i, 1)
   \/ \E i \in E, c \in Classes, g \in BOOLEAN : Emit(i, c, g)
   \/ \E i \in E, k \in MiscKinds \ {"L"} : Comment(i, k)
+  \/ \E i \in E : UseEmitN /\ EmitN(i)
 
 InitS == /\ h = [in |-> FALSE, lg |-> 0, eh |-> 0]
          /\ es = [i \in E |-> Fresh]
